@@ -69,6 +69,8 @@ func main() {
 	for i, n := 0, r.Pick(2, 20); i < n; i++ {
 		run(r, caseID{"view", r.Seed*4_000_003 + int64(i)})
 	}
+	r.Count("contents_of_many_mid_size_pairs", manySmall.Load())
+	r.FloorCount("contents_of_many_mid_size_pairs", 1)
 	r.FloorNontrivial(int64(r.Pick(1500, 30000)))
 	r.FloorCount("reads", int64(r.Pick(8000, 150000)))
 	r.FloorCount("streams_multi_message", int64(r.Pick(40, 500)))
@@ -88,8 +90,38 @@ func run(r *ev.Run, id caseID) {
 	}
 }
 
+// fillManySmall: a range of several MiB made of tens of thousands of small pairs, so that the
+// per-pair framing overhead adds up inside one message.
+func fillManySmall(g *gen.G) []*pb.Command {
+	var cmds []*pb.Command
+	total, i := 0, 0
+	target := (5 + g.R.Intn(4)) * 1024 * 1024
+	// 2-8 KiB pairs: 500-2000 pairs per 4 MiB message (regatta recomputes the message size per
+	// pair, so much smaller pairs make a single read take tens of seconds)
+	vmax := []int{2048, 4096, 8192}[g.R.Intn(3)]
+	klen := []int{8, 40, 120}[g.R.Intn(3)]
+	for total < target {
+		batch := &pb.Command{Type: pb.Command_PUT_BATCH}
+		for j := 0; j < 200 && total < target; j++ {
+			k := []byte(fmt.Sprintf("%0*d", klen, i))
+			v := bytes.Repeat([]byte{byte('a' + i%26)}, vmax/2+g.R.Intn(vmax/2))
+			batch.Batch = append(batch.Batch, &pb.KeyValue{Key: k, Value: v})
+			total += len(k) + len(v)
+			i++
+		}
+		cmds = append(cmds, batch)
+	}
+	return cmds
+}
+
+var manySmall atomic.Int64
+
 func fill(g *gen.G, big bool) []*pb.Command {
 	var cmds []*pb.Command
+	if big && g.R.Intn(4) == 0 {
+		manySmall.Add(1)
+		return fillManySmall(g)
+	}
 	if big {
 		n := 3 + g.R.Intn(7)
 		// a third of the big contents is aligned: the first three pairs sum up to the transport
@@ -288,8 +320,14 @@ func runFSM(r *ev.Run, id caseID) {
 				r.Violation(sig, why+" @ "+w.Request, w)
 				return
 			}
-			chunks, err := t.Stream(req)
+			// other requests are served between opening the stream and producing its first message
+			chunks, err := t.StreamDeferred(req, func() {
+				_, _ = t.Range(&pb.RequestOp_Range{Key: []byte("zz-other-key")})
+				_, _ = t.Range(&pb.RequestOp_Range{Key: []byte("a-other"), RangeEnd: []byte("b-other")})
+				_, _ = t.Txn(&pb.TxnRequest{Compare: []*pb.Compare{{Key: []byte("other-cmp")}}})
+			})
 			r.Count("reads", 1)
+			r.Count("streams_with_requests_between_open_and_first_message", 1)
 			if err != nil {
 				r.Violation("stream-error", err.Error()+" @ "+w.Request, w)
 				return
